@@ -434,6 +434,9 @@ def unresolved_navigation(flags, uses_first, registered):
         return 'load fails: %s: %s' % (type(e).__name__, str(e)[:80])
     s_x, a_x, inst = m.structs[0].vals[0], m.structs[1].vals[0], m.insts[0]
     tgt = m.uses[0].target
+    import textx.scoping.rrel as R_
+    if 'p' in flags and not isinstance(tgt, R_.ReferenceProxy):
+        return "the expression has the flag '+p:' but the reference is not a ReferenceProxy (no _tx_path): %r" % type(tgt).__name__
     obj = tgt._tx_obj if 'p' in flags else tgt
     if obj is not s_x:
         return "'a.x' resolves to the val of struct %r, expected S.x (first alternative: inst a -> type S -> x)" % (
